@@ -53,6 +53,15 @@ def _collection(lengths, names, grid_ns):
     return MazeDatasetCollection(cfg, ms), ms
 
 
+def _history():
+    """other collections with other length vectors are alive and were read before the measured access (lookups must not share state)"""
+    for lengths, idxs in (([1, 0, 3], [1, 3]), ([0, 2, 0, 0, 2], [3]), ([4], [2])):
+        other, _ = _collection(lengths, [f"h{i}" for i in range(len(lengths))], [2] * len(lengths))
+        for i in idxs:
+            assert other[i] == i, "history collection (concrete index) misbehaves"
+    return other
+
+
 def _name_patterns(k):
     pats = [[f"m{i}" for i in range(k)]]
     if k >= 2:
@@ -109,6 +118,7 @@ def _run_getitem(job):
         old = cd.np
         cd.np = SNP
         try:
+            _history()
             coll, ms = _collection(v, names, _grid_ns(len(v), vi))
             obs = [("len == sum of member lengths", z3.BoolVal(len(coll) == total)),
                    ("per-member lengths", z3.BoolVal(list(coll.dataset_lengths) == list(v))),
@@ -135,6 +145,10 @@ def _replay_getitem(job, inputs, notes):
     vi, v, names = inst[inputs["instance"]]
     total = sum(v)
     tag = f"lengths={v} names={names}"
+    try:
+        _history()
+    except Exception as e:
+        return f"collection-getitem | reading several collections with different length vectors one after the other ([1,0,3], [0,2,0,0,2], [4], then {tag}): {type(e).__name__}: {str(e)[:100]}"
     try:
         coll, ms = _collection(v, names, _grid_ns(len(v), vi))
     except Exception as e:
@@ -169,5 +183,5 @@ META = dict(
     stubs=["np -> symbolic shim in maze_dataset.dataset.collected_dataset (np.searchsorted on the cumulative lengths)",
            "member datasets are stand-ins (MazeDataset subclass) holding the global ids of the independent concatenation"],
     outside=["indices outside 0 <= i < len (negative / too large)", "more than 5 members or lengths above 4"],
-    assumptions=["items are identified by their position in the independently built concatenation"],
+    assumptions=["three other collections (lengths [1,0,3], [0,2,0,0,2], [4]) are built and read before every measured access (fixed pre-history)", "items are identified by their position in the independently built concatenation"],
 )
